@@ -157,6 +157,9 @@ Record env := {
                                         PREVRANDAO GASLIMIT CHAINID BASEFEE GAS *)
   e_keyed : instr -> Z -> Z;         (* BALANCE EXTCODESIZE EXTCODEHASH (of a 160-bit address) BLOCKHASH *)
   e_extcode : Z -> list Z;           (* code seen by EXTCODECOPY *)
+  e_canon : Z -> Z;                  (* canonical form of a 160-bit address: the 0xff.. form of the ID of an
+                                        actor that has an Ethereum address is mapped to that address
+                                        (rt.resolve_address / lookup_delegated_address); identity otherwise *)
   e_acct_kind : Z -> Z;              (* ext::get_contract_type of a 160-bit address:
                                         0 account / not found, 1 EVM contract, 2 other native actor *)
 }.
@@ -265,7 +268,7 @@ Section Machine.
     | None => SemFail ILLEGAL_MEM s
     | Some (reg, sz) =>
         let input := region_bytes (m_mem s) reg in
-        let dst160 := dst mod ADDR_MASK in
+        let dst160 := e_canon E (dst mod ADDR_MASK) in
         let pre := is_reserved_precompile dst in
         let sends := pre || negb (kind =? 1) || (e_acct_kind E dst160 =? 1) in
         let '(r, rest) :=
@@ -367,13 +370,13 @@ Section Machine.
     | I_PREVRANDAO | I_GASLIMIT | I_CHAINID | I_BASEFEE | I_GAS => nullary (e_ctx E i) args s
     | I_SELFBALANCE => nullary (m_balance s) args s
     | I_BALANCE | I_EXTCODESIZE | I_EXTCODEHASH =>
-        match args with [a] => SemPush (wrapW (e_keyed E i (a mod ADDR_MASK))) s | _ => SemFail EC_MODEL s end
+        match args with [a] => SemPush (wrapW (e_keyed E i (e_canon E (a mod ADDR_MASK)))) s | _ => SemFail EC_MODEL s end
     | I_BLOCKHASH =>
         match args with [a] => SemPush (wrapW (e_keyed E i a)) s | _ => SemFail EC_MODEL s end
     | I_EXTCODECOPY =>
         match args with
         | [a; dest; doff; size] =>
-            match copy_to_memory s dest size doff (e_extcode E (a mod ADDR_MASK)) true with
+            match copy_to_memory s dest size doff (e_extcode E (e_canon E (a mod ADDR_MASK))) true with
             | None => SemFail ILLEGAL_MEM s | Some s' => SemNone s' end
         | _ => SemFail EC_MODEL s
         end
@@ -518,7 +521,7 @@ Section Machine.
             if e_readonly E then SemFail USR_READ_ONLY s else
             let '(r, rest) := next_ext s in
             if xr_ok r then
-              SemExit (Return []) (set_ext (m_retdata s) 0 rest (EvSelfdestruct (b mod ADDR_MASK) :: m_log s) s)
+              SemExit (Return []) (set_ext (m_retdata s) 0 rest (EvSelfdestruct (e_canon E (b mod ADDR_MASK)) :: m_log s) s)
             else SemFail EVM_CONTRACT_SELFDESTRUCT_FAILED s
         | _ => SemFail EC_MODEL s
         end
@@ -674,6 +677,7 @@ Record call_in := {
   ci_ctx : list (Z * Z);                 (* opcode byte -> value of the context getter *)
   ci_keccak : list (list Z * Z);         (* pre-image -> digest, recorded from the real hash primitive *)
   ci_accts : list acct;
+  ci_canon : list (Z * Z);               (* 0xff.. ID form -> Ethereum address, for the actors the run touched *)
   ci_self_hash : Z;                      (* keccak of the contract's own code (0: no code yet) *)
   ci_blockhash : list (Z * Z);
   ci_ext : list ext_res;
@@ -686,7 +690,7 @@ Definition self_acct (code : list Z) (c : call_in) : list acct :=
 Definition mk_env (code : list Z) (ro : bool) (c0 : call_in) : env :=
   let c := {| ci_calldata := ci_calldata c0; ci_balance := ci_balance c0; ci_ctx := ci_ctx c0;
               ci_keccak := ci_keccak c0; ci_accts := self_acct code c0 ++ ci_accts c0;
-              ci_self_hash := ci_self_hash c0; ci_blockhash := ci_blockhash c0; ci_ext := ci_ext c0 |} in
+              ci_canon := ci_canon c0; ci_self_hash := ci_self_hash c0; ci_blockhash := ci_blockhash c0; ci_ext := ci_ext c0 |} in
   {| e_code := code; e_calldata := ci_calldata c; e_readonly := ro;
      e_keccak := fun bs => assoc_l bs (ci_keccak c);
      e_ctx := fun i => assoc (instr_byte i) (ci_ctx c);
@@ -699,6 +703,7 @@ Definition mk_env (code : list Z) (ro : bool) (c0 : call_in) : env :=
        | _ => 0
        end;
      e_extcode := fun a => match find_acct a (ci_accts c) with Some x => ac_code x | None => [] end;
+     e_canon := fun a => match List.find (fun kv : Z * Z => fst kv =? a) (ci_canon c) with Some kv => snd kv | None => a end;
      e_acct_kind := fun a => match find_acct a (ci_accts c) with Some x => ac_kind x | None => 0 end |}.
 
 (* 2^n steps without building a unary number: run_pow n s = run (2^n) s (Proofs.run_pow_spec) *)
@@ -741,12 +746,13 @@ Definition id_eth (id : Z) : Z := 255 * 2 ^ 152 + id.
 (* compact constructor used by the harness.  origin: the sending account (0xff.. form of its id);
    extra: accounts beyond the standard ones (the contract itself) *)
 Definition mkci (calldata : list Z) (balance address origin caller value origin_balance echo reverter : Z)
-  (echo_hash reverter_hash : Z) (keccak : list (list Z * Z)) (self_hash : Z) (ext : list ext_res) : call_in :=
+  (echo_hash reverter_hash : Z) (keccak : list (list Z * Z)) (self_hash : Z) (canon : list (Z * Z))
+  (ext : list ext_res) : call_in :=
   {| ci_calldata := calldata; ci_balance := balance;
      ci_ctx := [(48, address); (50, origin); (51, caller); (52, value); (58, 0); (65, 0); (66, 0);
                 (67, VM_EPOCH); (68, VM_RANDAO); (69, 10000000000); (70, 0); (72, 0); (90, 2 ^ 32 - 1)];
      ci_keccak := keccak;
-     ci_self_hash := self_hash;
+     ci_self_hash := self_hash; ci_canon := canon;
      ci_accts :=
        [ {| ac_addr := origin; ac_kind := 0; ac_balance := origin_balance; ac_size := 0; ac_hash := HASH_EMPTY; ac_code := [] |};
          {| ac_addr := id_eth 1; ac_kind := 2; ac_balance := 0; ac_size := 1; ac_hash := HASH_NATIVE; ac_code := [254] |};
